@@ -25,7 +25,7 @@ def configs():
     # natural lengths are measured by the driver; limits are generated generously (0..5) and the
     # spec only needs limit as given
     for logic, argstr in ARGS:
-        for mode in ('auto', 'manual', 'noarg'):
+        for mode in ('auto', 'manual', 'noarg', 'hand'):
             for limit in (-1, 0, -2, 1, 2, 3, 4, 5, 6):
                 out.append({'logic': logic, 'argstr': argstr, 'mode': mode, 'limit': limit, 'tmo': 0})
             out.append({'logic': logic, 'argstr': argstr, 'mode': mode, 'limit': -1, 'tmo': 1})
@@ -72,13 +72,16 @@ def run(rep):
                            'mode': f['cfg']['mode'], 'pre_finished': f['pre']['finished'], 'pre_started': f['pre']['started']}, f)
     nseq = sum(1 for _ in open(g.out_path))
     nskip = sum(1 for c in cfgs if c['tmo'] == 2)       # cumulative-timeout configurations need a proof of >= 3 steps
-    if not (nseq * (len(cfgs) - nskip) <= total <= nseq * len(cfgs)):
-        raise C.MachineryError(f'C17: expected about {nseq * len(cfgs)} traces, validated {total}')
+    nhand = sum(1 for c in cfgs if c['mode'] == 'hand')  # hand-made branches: sequences over step / finish / build only
+    nhseq = sum(1 for l in open(g.out_path) if all(c in ('step', 'finish', 'build') for c in json.loads(l)['calls']))
+    hi = nseq * (len(cfgs) - nhand) + nhseq * nhand
+    if not (hi - nseq * nskip <= total <= hi):
+        raise C.MachineryError(f'C17: expected about {hi} traces, validated {total}')
     rep.cov['model_drift'] = drift
     rep.cov['evaluations'] = total * depth
     rep.cov['distinct_nontrivial'] = total
     rep.cov['rule'] = (f'every call sequence of length {depth} over the 7 public calls (TLC-generated, {nseq}) x {len(cfgs)} configurations '
-                       '(8 arguments x auto/manual/no-argument x step limits None,0,negative,1..6 x expired time limit); all distinct')
+                       '(8 arguments x auto/manual/no-argument/hand-made branch without trunk x step limits None,0,negative,1..6 x expired time limit); all distinct')
     rep.cov['exhaustive'] = True
     with open(d / 'obs0.ndjson') as f:
         for k, line in enumerate(f):
